@@ -175,7 +175,7 @@ func (d *dumper) checkClause(p *packages.Package, fd *ast.FuncDecl, loops []ast.
 		switch l := loops[c.loop-1].(type) {
 		case *ast.ForStmt:
 			pos = l.Body.Lbrace + 1
-			if c.kind == "preserves" {
+			if c.kind == "preserves" || c.kind == "exits" {
 				// a per-iteration clause is evaluated where the body ends: variables declared at the top
 				// level of the body are in scope
 				pos = l.Body.Rbrace
